@@ -180,6 +180,19 @@ def scenarios():
         steps = [call(c['id'], a) for c in scfgs] + [call(c['id'], a) for c in reversed(scfgs)]
         scen('same-stylesheet-abbreviation-across-configs/%s' % a, _w(scfgs), steps)
 
+    # 1b'. the same TEXT under configs of different type / context that share one cache dict
+    #      (valid in one reading, malformed in the other)
+    share = [{'id': 'c0', 'holder': 'dict', 'cache': 'k0'}, {'id': 'c1', 'holder': 'dict', 'type': 'stylesheet', 'cache': 'k0'},
+             {'id': 'c2', 'holder': 'dict', 'type': 'stylesheet', 'cache': 'k0', 'context': {'name': 'border'}},
+             {'id': 'c3', 'holder': 'Config', 'syntax': 'pug', 'cache': 'k0'}, {'id': 'c4', 'holder': 'Config', 'type': 'stylesheet', 'syntax': 'sass', 'cache': 'k0'}]
+    texts = ['p10%', 'a[href]', '1px solid', 'm10', 'div', 'ul>li*2', 'c#f', 'm10+p5', 'a', 'p', 'bd1-s', 'p{x}', 'lg(#f, #0)', 'd:n', 'h1']
+    for grp in (texts[:5], texts[5:10], texts[10:]):
+        steps = []
+        for tx in grp:
+            for c in ('c0', 'c1', 'c2', 'c3', 'c4', 'c0', 'c1'):
+                steps.append(call(c, tx))
+        scen('same-text-across-types-sharing-a-cache/%s' % grp[0], _w(share, caches=['k0']), steps)
+
     # 1c. completing the VALUE of a property between two property-level looks (one cache, and none)
     for cache in ('k0', None):
         for prop_name in sorted(ga.VALUE_CONTEXTS):
